@@ -85,13 +85,27 @@ func VP_C19_bbox() {
 	}
 	scales := []float64{0.001, 0.0005, -0.001}
 	s := scales[vpChoose("scale", len(scales))]
-	f := &Font{FontInfo: &FontInfo{FontMatrix: matrix.Matrix{s, 0, 0, 0.001, 0, 0}}, Glyphs: map[string]*Glyph{"g": g}}
-	pdf := f.GlyphBBoxPDF("g")
-	want := vpBoxOf(pts, s*1000, 0.001*1000)
-	if s < 0 {
-		want.LLx, want.URx = vpMin(want.LLx, want.URx), vpMax(want.LLx, want.URx)
+	ty, tr := 0.001, 0.0
+	if vpParam("AFFINE", 0) == 1 {
+		// mirrored y axis and a translation (decided for integer coordinates)
+		ty = []float64{0.001, -0.001}[vpChoose("yscale", 2)]
+		tr = []float64{0, 0.05}[vpChoose("translate", 2)]
+		s = []float64{0.001, -0.001}[vpChoose("xscale", 2)]
 	}
-	vpAssert("pdf-bbox-is-the-scaled-box", vpRectEq(pdf, want))
+	f := &Font{FontInfo: &FontInfo{FontMatrix: matrix.Matrix{s, 0, 0, ty, tr, tr}}, Glyphs: map[string]*Glyph{"g": g}}
+	pdf := f.GlyphBBoxPDF("g")
+	// the box of the transformed end points x*(s*1000)+tr*1000, y*(ty*1000)+tr*1000
+	var want rect.Rect
+	for i, p := range pts {
+		x, y := p[0]*(s*1000)+tr*1000, p[1]*(ty*1000)+tr*1000
+		if i == 0 {
+			want = rect.Rect{LLx: x, LLy: y, URx: x, URy: y}
+			continue
+		}
+		want.LLx, want.URx = vpMin(want.LLx, x), vpMax(want.URx, x)
+		want.LLy, want.URy = vpMin(want.LLy, y), vpMax(want.URy, y)
+	}
+	vpAssert("pdf-bbox-is-the-box-of-the-transformed-points", vpRectEq(pdf, want))
 	vpAssert("missing-glyph-zero-box", f.GlyphBBoxPDF("absent").IsZero())
 	vpCover("done")
 }
